@@ -110,6 +110,7 @@ class SimSpec:
             "status_queries_failed_by_injection": sum(sum(1 for f in (r.get("faults") or []) if f and f[0] == "squeue_fail") for r in ok),
             "scenarios_with_a_resubmission": sum(1 for t in tasks if (t["args"]["scen"].get("resubmit") or {}).get("rounds")),
             "resubmissions_with_changed_group_parameters": sum(1 for t in tasks for rd in (t["args"]["scen"].get("resubmit") or {}).get("rounds", []) if rd.get("groups")),
+            "scenarios_with_parameters_given_as_submit_jobs_options": sum(1 for t in tasks if t["args"]["scen"].get("cli_params")),
             "scenarios_with_a_held_slow_blocker": sum(1 for t in tasks if t["args"]["scen"].get("hold_job")),
             "lock_markers_of_live_holders_detached_by_the_lock_library": total(ok, "live_lock_breaks"),
         }
@@ -148,6 +149,8 @@ class C01(SimSpec):
             for g in scen["groups"]:
                 g["batch"] = rng.randint(1, 2)
         scen["user"]["try_submit"] = rng.choice([0, 1, 2, 3])
+        if i % 10 == 7:
+            scenario.to_cli_mode(scen)  # parameters as options of submit-jobs, no groups in the configuration
         return scen
 
     def tasks(self, tier, seed):
@@ -319,6 +322,8 @@ class C03(SimSpec):
                     for j in scen["jobs"]:
                         j["group"] = scen["groups"][0]["name"]
                     scen["user"] = {}
+                if v == 0 and i % 3 == 0:
+                    scenario.to_cli_mode(scen)  # the same DAG with the parameters given as options of submit-jobs
                 if v == 2:
                     # collection race variant: rounds collect the result files of batches that are still running jobs, with
                     # delays between a collector's read and its delete of a node file
@@ -549,6 +554,8 @@ class C06(SimSpec):
             # jobs are still unsubmitted; "the scheduler did not answer" must not be read as "no batch is active"
             scen["faults"] = {"squeue_fail": 1.0, "squeue_fail_budget": rng.choice([7, 7, 14]), "max_recoveries": 12, "outage_freeze": rng.random() < 0.5}
             scen["max_nodes"] = rng.choice([1, 2])
+        if i % 8 == 5:
+            scenario.to_cli_mode(scen)  # -n / -q / -b given as options of submit-jobs
         if i % 8 == 7:
             scen["mode"] = "local"
             scen["groups"] = scen["groups"][:1]
@@ -718,6 +725,8 @@ class C16(SimSpec):
             scen["user"] = {}
         if rng.random() < 0.15:
             scen["hooks"]["rc"] = {rng.choice(["teardown", "nteardown"]): 1}
+        if (i // 16) % 4 == 2 and (i // 64) % 2 == 0:
+            scenario.to_cli_mode(scen)  # the default group: JADE_SUBMISSION_GROUP=default on the nodes
         if (i // 16) % 4 == 1:
             # scheduler outage while several batches run: the status query of one or two rounds fails through all its retries;
             # "no answer" must not be taken for "everything has finished" (teardown / completion before the last outcomes)
